@@ -49,6 +49,10 @@ CHECKS = {
             "TLA+ spec Adts.tla (ADTS object state machine + ISO 13818-7 header / ASC layout functions, reference decoder) checked by TLC incl. 7-byte-CRC deviation; TLC-enumerated matrices and behaviours replayed into the aac package",
             "TLC checks all interleavings of SetASC/Encode/ISO-writer/Decode writing up to 3 frames (every stream decodes frame by frame to exactly its raw blocks, remainder at the next sync word), the layout functions over the full finite matrices (65536 ASC values, all header field combinations), and every enumerated case/behaviour is replayed into the real library with the specification's bytes, results and abstract state as oracle",
             "trusts TLC, the LD expander and the transcription of ISO 13818-7 6.2 / 14496-3 1.6.2.1; CRC value itself is not checked (library does not verify it); ID/private/copyright/fullness bits of encoder output not judged", "5/C11"),
+    "C16": ("model_checking",
+            "symbolic TLA+ state machine Jose.tla (TLC: accept-iff-untampered invariants, 3 named deviations) + TLC-enumerated RFC 7518 matrix replayed with real keys and single-bit flips into https/jose",
+            "TLC checks on a perfect-cryptography term model that verification/decryption succeeds exactly when no carried field was changed and the key is the same, for every algorithm/serialization/tamper class, and enumerates the whole matrix; every enumerated object is signed/encrypted, serialized, bit-flipped per field (every bit for 1-byte payloads in thorough), parsed and opened by the real library and compared with the model's verdict; JWS signatures are also checked by an independent stdlib verifier; JWK round trip, fixed-width coordinates (leading-zero keys) and the RFC 7638 thumbprint are checked against spec tables",
+            "cryptography uninterpreted in the model; evidence for bit flips is the flips actually tried; trusts Go stdlib crypto, TLC and the RFC table transcription; symmetric JWE-side wrong-primitive deviations not visible; oct thumbprints and acme unexported functions not judged", "5/C16"),
     "C19": ("model_checking",
             "TLA+ spec HttpApi.tla (request -> handler decision table -> client verdict) checked by TLC with six named deviations; TLC-enumerated table replayed into the real handlers (ResponseRecorder) and ApiRequest over a loopback server",
             "for every row of the answer table (kinds x codes incl. negatives and 64-bit extremes x statuses x value classes incl. unmarshalable x callback forms) the real handlers through every public entry point produce the response the specification predicts, and the client half never confuses success and failure",
